@@ -88,7 +88,9 @@ func (s *survey) cancel(err error) {
 
 		s.err = err
 		sock.Lock()
-		s.timer.Stop()
+		if s.timer != nil {
+			s.timer.Stop()
+		}
 		if ctx.surv == s {
 			ctx.surv = nil
 		}
@@ -110,9 +112,11 @@ func (s *survey) start(qLen int, expire time.Duration) {
 	s.recvQ = make(chan *protocol.Message, qLen)
 	s.sock.surveys[s.id] = s
 	s.ctx.surv = s
-	s.timer = time.AfterFunc(expire, func() {
-		s.cancel(protocol.ErrProtoState)
-	})
+	if expire != 0 { // zero means the survey never expires
+		s.timer = time.AfterFunc(expire, func() {
+			s.cancel(protocol.ErrProtoState)
+		})
+	}
 }
 
 func (c *context) SendMsg(m *protocol.Message) error {
